@@ -4,10 +4,13 @@
 package core
 
 import (
+	"bytes"
 	"fmt"
 	"runtime"
 	"sort"
+	"strconv"
 	"strings"
+	"time"
 )
 
 // ---------------------------------------------------------------- mixing
@@ -265,6 +268,48 @@ type Result struct {
 func Exec(prop string, t *Tape, trace bool, f RunFunc) (res Result) {
 	ctx := NewCtx(prop, t, trace)
 	res.Ctx = ctx
+	// The run executes on its own goroutine so that a run that can never finish - the library
+	// waiting for a lock nobody will release - is a verdict instead of a hung worker.
+	done := make(chan struct{})
+	gidc := make(chan uint64, 1)
+	go func() {
+		defer close(done)
+		gidc <- curGoid()
+		execBody(prop, ctx, f, &res)
+	}()
+	gid := <-gidc
+	wait := time.NewTimer(deadlockGrace) // wall clock only decides WHEN we look; a deadlock is permanent
+	defer wait.Stop()
+	same, last := 0, ""
+	for {
+		select {
+		case <-done:
+			return
+		case <-wait.C:
+		}
+		st := blockedStack(gid)
+		if st != "" && st == last {
+			same++
+		} else {
+			same = 0
+		}
+		last = st
+		if st != "" && same >= 6 {
+			fn, where := libFrame(st)
+			if fn == "" {
+				res = Result{Ctx: ctx, Harness: &HarnessPanic{Val: "the run blocks forever on a lock outside the library", Stack: st}}
+				return
+			}
+			// the goroutine stays blocked (and keeps res of its own); hand out a fresh Result
+			return Result{Ctx: ctx, V: &Violation{Class: prop + "/deadlock", Facts: "in=" + shortFn(fn), Msg: "the call never returns: it waits for a lock that nothing will release, at " + where}} // (the context belongs to the blocked goroutine: not read here)
+		}
+		wait.Reset(250 * time.Millisecond)
+	}
+}
+
+const deadlockGrace = 1500 * time.Millisecond
+
+func execBody(prop string, ctx *Ctx, f RunFunc, res *Result) {
 	defer func() {
 		if r := recover(); r != nil {
 			if a, ok := r.(Abort); ok {
@@ -285,7 +330,72 @@ func Exec(prop string, t *Tape, trace bool, f RunFunc) (res Result) {
 		}
 	}()
 	res.V = f(ctx)
-	return
+}
+
+func curGoid() uint64 {
+	var buf [64]byte
+	b := buf[:runtime.Stack(buf[:], false)]
+	b = bytes.TrimPrefix(b, []byte("goroutine "))
+	var id uint64
+	for _, c := range b {
+		if c < '0' || c > '9' {
+			break
+		}
+		id = id*10 + uint64(c-'0')
+	}
+	return id
+}
+
+// blockedStack returns the stack text of goroutine g if it is waiting for a
+// sync.Mutex / RWMutex, "" otherwise.
+func blockedStack(g uint64) string {
+	buf := make([]byte, 1<<18)
+	for {
+		n := runtime.Stack(buf, true)
+		if n < len(buf) {
+			buf = buf[:n]
+			break
+		}
+		buf = make([]byte, 2*len(buf))
+	}
+	for _, blk := range strings.Split(string(buf), "\n\n") {
+		head := "goroutine " + strconv.FormatUint(g, 10) + " ["
+		if !strings.HasPrefix(blk, head) {
+			continue
+		}
+		st := blk[len(head):]
+		if strings.HasPrefix(st, "sync.Mutex.Lock") || strings.HasPrefix(st, "sync.RWMutex.") {
+			// drop the header line: it contains the waiting time
+			if i := strings.IndexByte(blk, '\n'); i >= 0 {
+				return blk[i+1:]
+			}
+		}
+		return ""
+	}
+	return ""
+}
+
+// libFrame returns the innermost library function in a stack text.
+func libFrame(st string) (string, string) {
+	lines := strings.Split(st, "\n")
+	for i, l := range lines {
+		if strings.HasPrefix(l, libPrefix) {
+			fn := l
+			if k := strings.LastIndex(fn, "("); k > 0 {
+				fn = fn[:k]
+			}
+			where := ""
+			if i+1 < len(lines) {
+				where = strings.TrimSpace(lines[i+1])
+				if k := strings.Index(where, " +0x"); k > 0 {
+					where = where[:k]
+				}
+				where = shortFile(where)
+			}
+			return fn, where
+		}
+	}
+	return "", ""
 }
 
 func shortFn(fn string) string {
